@@ -10,6 +10,7 @@ from hypothesis import strategies as st
 from ..core import SubCheck, Violation, cut, require
 from ..oracles import tables as otab
 from ..rng_script import scripted
+from ..strategies import LAYOUTS
 from .c04 import BETA_MAX, BETA_MIN, B_NODES, E_NODES, _taus, beta_st, log_e_st, outside_e, version_st
 
 PROPERTY_ID = "C05"
@@ -69,6 +70,19 @@ def body_pointwise(case):
     require(bool(np.all((p > 0) & (p <= 1.0))), f"exit probability outside (0,1]: {p.tolist()}")
     require(bool(np.all((p >= lo * (1 - 1e-12)) & (p <= hi * (1 + 1e-12)) | high)), "exit probability outside the range of its four surrounding nodes")
     labels = set()
+    # the same events in another memory representation (non-native byte order, 2-D with permuted axes, read-only,
+    # strided views) give the same probabilities (to the last places: numpy picks its loops by stride), in the shape of the input
+    kind = case.get("layout")
+    if kind:
+        from ..strategies import as_layout, same_values
+
+        lb, le = as_layout(beta, kind), as_layout(log_e, kind)
+        if lb is not None:
+            with cut(f"Taus.tau_exit_prob({kind} inputs of shape {lb[0].shape})"):
+                p2 = np.asarray(taus.tau_exit_prob(lb[0], le[0]))
+            require(p2.shape == lb[0].shape, f"result of shape {p2.shape} for {kind} inputs of shape {lb[0].shape}")
+            require(same_values(lb[1](p2), p), f"{kind} inputs of shape {lb[0].shape} give other exit probabilities than the plain arrays of the same values (e.g. {np.ravel(lb[1](p2))[:3].tolist()} instead of {p[:3].tolist()})")
+            labels.add("layout_" + kind)
     low = beta < BETA_MIN
     if low.any():
         labels.add("below_min")
@@ -206,7 +220,7 @@ op_st = st.one_of(
 SUBCHECKS = [
     SubCheck(
         "pointwise",
-        st.fixed_dictionaries({"version": version_st, "events": st.lists(event2, min_size=1, max_size=48)}),
+        st.fixed_dictionaries({"version": version_st, "events": st.lists(event2, min_size=1, max_size=48), "layout": st.sampled_from([None, None] + LAYOUTS)}),
         body_pointwise,
         lambda labels: bool(labels & {"below_min", "above_max"}) and bool(labels & {"axis_node", "floored_node"}),
         {"quick": 1200, "thorough": 60000},
